@@ -21,7 +21,7 @@ def char_spellings(cp: int, rnd: random.Random, quote: str) -> str:
     ch = chr(cp)
     if cp >= 32 and ch not in ("\\", quote) and not (0xD800 <= cp <= 0xDFFF):
         options += [ch, ch, ch]
-    elif cp in (10, 9) and rnd.random() < 0.3:
+    elif cp in (10, 9, 13) and rnd.random() < 0.3:
         options.append(ch)  # a raw control character is ANY too
     if cp in simple:
         options += [simple[cp]] * 2
@@ -197,7 +197,7 @@ def mutate_tokens(rnd: random.Random, toks: list[str], n: int, joiner) -> list[s
     return out
 
 
-SOUP_CPS = [92, 92, 110, 114, 116, 48, 120, 117, 123, 125, 34, 39, 10, 9, 97, 66, 0x1F600, 0xE9, 32, 47, 45]
+SOUP_CPS = [92, 92, 110, 114, 116, 48, 120, 117, 123, 125, 34, 39, 10, 9, 97, 66, 0x1F600, 0xE9, 32, 47, 45, 13, 13, 10]
 
 
 def literal_soup(rnd: random.Random, n: int) -> list[str]:
